@@ -10,7 +10,7 @@ cleanup() { git -C /repo worktree remove --force "$W/wt" >/dev/null 2>&1; rm -rf
 trap cleanup EXIT
 git -C /repo worktree add -f --detach "$W/wt" HEAD >/dev/null 2>&1 || { echo "VERIFY worktree failed"; exit 3; }
 cp -r "$DEMO" "$W/demo"; rm -f "$W/demo"/out.*.txt
-sed -i -E "s|=> /tmp/mut[0-9]*/[A-Za-z0-9]+|=> $W/wt|" "$W/demo/go.mod"
+sed -i -E "s|(github.com/elastic/go-ucfg) => /[^ ]+|\1 => $W/wt|" "$W/demo/go.mod"
 ( cd "$W/demo" && timeout 300 go run . >"$W/orig.out" 2>&1 ); O=$?
 git -C "$W/wt" apply "$PATCH" || { echo "VERIFY patch does not apply"; exit 3; }
 if git -C "$W/wt" status --porcelain | grep -q "_test.go"; then echo "VERIFY touches tests"; exit 3; fi
